@@ -52,24 +52,26 @@ func Loops(fn *ssa.Function) []*Loop {
 				}
 			}
 		}
-		if phi == nil || len(phi.Edges) != 2 {
+		if phi == nil || len(phi.Edges) < 2 {
 			continue
 		}
-		// one edge constant init, other edge increment of phi by 1
-		initOK, incOK := false, false
+		// exactly one constant init edge; every other edge is phi+1 (several latches after `continue`)
+		nInit, nInc, nOther := 0, 0, 0
 		for _, e := range phi.Edges {
 			if k, ok := ConstInt(e); ok {
 				lo = k
-				initOK = true
+				nInit++
 				continue
 			}
 			if b, ok := e.(*ssa.BinOp); ok && b.Op == token.ADD && b.X == phi {
 				if k, ok := ConstInt(b.Y); ok && k == 1 {
-					incOK = true
+					nInc++
+					continue
 				}
 			}
+			nOther++
 		}
-		if !initOK || !incOK {
+		if nInit != 1 || nInc < 1 || nOther != 0 {
 			continue
 		}
 		if rng {
